@@ -698,7 +698,7 @@ package policy
 //@   requires s != nil && s.Metadata != nil && noNilControllers(s)
 //@   # controllers are stored under their (non-empty) names; the empty name is the repository's own slot
 //@   requires namedControllers: !has(s.ControllerMetadata, "")
-//@   assigns s.Hooks, s.globalRules, s.allPrincipals, s.GitHubApps, s.ruleNames, s.hasFileRule, fresh(set.Set[string].contents), fresh(map map[string]struct{}), fresh(map map[string]tuf.Principal), fresh(map map[tuf.HookStage][]tuf.Hook), fresh(map map[string][]tuf.GlobalRule), fresh(elems tuf.Hook)
+//@   assigns s.Hooks, s.globalRules, s.allPrincipals, s.GitHubApps, s.ruleNames, s.hasFileRule, map(s.allPrincipals), map(s.globalRules), fresh(set.Set[string].contents), fresh(map map[string]struct{}), fresh(map map[string]tuf.Principal), fresh(map map[tuf.HookStage][]tuf.Hook), fresh(map map[string][]tuf.GlobalRule), fresh(elems tuf.Hook)
 //@   # C11: the global rules of the repository's own root and of every controller are all in force after loading
 //@   ensures [C11] ownGlobalRulesKept: err == nil && len(rmGlobalRules(rootOfState(s))) > 0 ==> has(s.globalRules, "") && s.globalRules[""] == rmGlobalRules(rootOfState(s))
 //@   # (a state without a primary rule file returns early: verification with such a state fails closed with
@@ -732,4 +732,5 @@ package policy
 //@   loop 9:
 //@     invariant own: len(rmGlobalRules(rootOfState(s))) > 0 ==> has(s.globalRules, "") && s.globalRules[""] == rmGlobalRules(rootOfState(s))
 //@     invariant names: s.Metadata.TargetsEnvelope != nil ==> namesRecorded(s, TargetsRoleName, len(rulesOfRole(s, TargetsRoleName))) && (forall role string :: has(s.Metadata.DelegationEnvelopes, role) && role != TargetsRoleName ==> namesRecorded(s, role, len(rulesOfRole(s, role))))
+//@     invariant rulesTable: s.globalRules == nil || s.globalRules == old(s.globalRules) || fresh(s.globalRules)
 //@     invariant controllers: forall c string :: visited(c) && c != "" && len(ctrlRules(s, c)) > 0 ==> has(s.globalRules, c) && s.globalRules[c] == ctrlRules(s, c)
